@@ -1,7 +1,7 @@
 
 import io
 from shlex import quote
-from subprocess import check_output, STDOUT, CalledProcessError
+from subprocess import check_output, CalledProcessError
 
 from io import StringIO
 
@@ -95,10 +95,11 @@ def apply_possible_filter(git_path, path=None):
     filter_cmd = filter_cmd.replace('%f', quote(git_path))
     with f:
         try:
+            # (only what the filter writes to stdout is the filtered content)
             output = check_output(
                 filter_cmd,
                 stdin=f,
-                stderr=STDOUT, shell=True
+                shell=True
             ).decode('utf8', 'replace')
         except CalledProcessError:
             # Like git: the content is used as it is if the filter fails,
